@@ -2,6 +2,12 @@
    C28/Proofs.v apply at every step of every history of calls. *)
 From ZV Require Import Base.Bytes Base.WinnowFacts C26.Desc C26.Tree C26.Msg C27.Model C28.Model C26.Model.
 From ZV Require Import C28.Spec C26.Facts C28.Proofs.
+
+Ltac case_all :=
+  repeat match goal with
+         | |- context [match ?x with _ => _ end] => destruct x eqn:?
+         | |- context [if ?x then _ else _] => destruct x eqn:?
+         end.
 From ZV Require C10.Model.
 
 (* ---------------------------------------------------------------- the tree after upd_at *)
@@ -34,28 +40,38 @@ Proof.
   apply lbeq_true in E. auto.
 Qed.
 
+Definition inames (n : node) : list bytes := map (fun i => id_name (in_desc i)) (node_ifs n).
+
+Lemma upd_ifs_names iname vals l :
+  map (fun i => id_name (in_desc i)) (upd_ifs iname vals l) = map (fun i => id_name (in_desc i)) l.
+Proof.
+  unfold upd_ifs. rewrite map_map. apply map_ext. intro i. destruct (lbeq _ _); reflexivity.
+Qed.
+
 Lemma upd_at_child root segs iname vals : forall segs' n',
   get_child (upd_at root segs iname vals) segs' = Some n' ->
-  exists n, get_child root segs' = Some n /\
+  exists n, get_child root segs' = Some n /\ inames n' = inames n /\
             forall i', In i' (node_ifs n') ->
                        exists i, In i (node_ifs n) /\
                                  (i' = i \/ (segs' = segs /\ same_or_updated iname vals i' i)).
 Proof.
   revert root. induction segs as [|s r IH]; intros root segs' n'.
   - cbn [upd_at]. destruct segs' as [|s' r']; cbn [get_child node_kids].
-    + intro H. inversion H; subst. exists root. split; [reflexivity|]. cbn [node_ifs]. intros i' Hi'.
+    + intro H. inversion H; subst. exists root. split; [reflexivity|]. split; [apply upd_ifs_names|].
+      cbn [node_ifs]. intros i' Hi'.
       apply upd_ifs_in in Hi' as (i & Hin & Hs). exists i. auto.
     + intro H. destruct (find_kid s' (node_kids root)) as [c|] eqn:E; [|discriminate].
-      exists n'. split; [exact H|]. intros i' Hi'. exists i'. auto.
+      exists n'. split; [exact H|]. split; [reflexivity|]. intros i' Hi'. exists i'. auto.
   - cbn [upd_at]. destruct (find_kid s (node_kids root)) as [c|] eqn:Ek.
-    2:{ intro H. exists n'. split; [exact H|]. intros i' Hi'. exists i'. auto. }
+    2:{ intro H. exists n'. split; [exact H|]. split; [reflexivity|]. intros i' Hi'. exists i'. auto. }
     destruct segs' as [|s' r']; cbn [get_child node_kids node_ifs].
-    + intro H. inversion H; subst. exists root. split; [reflexivity|]. cbn [node_ifs]. intros i' Hi'. exists i'. auto.
+    + intro H. inversion H; subst. exists root. split; [reflexivity|]. split; [reflexivity|].
+      cbn [node_ifs]. intros i' Hi'. exists i'. auto.
     + destruct (lbeq s s') eqn:Es.
       * apply lbeq_true in Es. subst s'. rewrite find_kid_set_same, Ek. intro H.
-        destruct (IH c r' n' H) as (n & Hg & Hn). exists n. split; [exact Hg|].
+        destruct (IH c r' n' H) as (n & Hg & Hnm & Hn). exists n. split; [exact Hg|]. split; [exact Hnm|].
         intros i' Hi'. destruct (Hn i' Hi') as (i & Hin & [->|[-> Hs]]); exists i; auto.
-      * rewrite (find_kid_set_other _ _ _ _ Es). intro H. exists n'. split; [exact H|].
+      * rewrite (find_kid_set_other _ _ _ _ Es). intro H. exists n'. split; [exact H|]. split; [reflexivity|].
         intros i' Hi'. exists i'. split; [exact Hi'|now left].
 Qed.
 
@@ -115,31 +131,121 @@ Section Inv.
     destruct (run_getter _ _ _); intro H; inversion H; eauto.
   Qed.
 
-  Lemma root_ok_upd root path i p v :
-    root_ok root -> registered root path (iname i) = Some i -> In p (id_props (in_desc i)) ->
+  (* the state invariant: well-formed instances, and at most one instance of a name per node *)
+  Definition state_ok (root : node) : Prop :=
+    root_ok root /\ forall segs n, get_child root segs = Some n -> nodupb (inames n) = true.
+
+  Lemma state_ok_upd root path i p v :
+    state_ok root -> registered root path (iname i) = Some i -> In p (id_props (in_desc i)) ->
     has_ty v (pd_ty p) = true ->
-    root_ok (upd_at root (segs_of path) (iname i) (set_val (pd_name p) v (in_vals i))).
+    state_ok (upd_at root (segs_of path) (iname i) (set_val (pd_name p) v (in_vals i))).
   Proof.
-    intros Hok Hr Hp Hv segs' n' i' Hg Hin.
-    destruct (upd_at_child _ _ _ _ _ _ Hg) as (n & Hgn & Hn).
-    destruct (Hn i' Hin) as (i0 & Hin0 & [->|[-> (Hd & Ht & [Hvals|[Hname Hvals]])]]).
-    - apply (Hok _ _ _ Hgn Hin0).
-    - destruct (Hok _ _ _ Hgn Hin0) as [Hw Hi]. split; [now rewrite Hd|].
-      intros q Hq. rewrite Hd in Hq. rewrite Hvals. apply Hi. exact Hq.
-    - (* the updated instance: it is i itself *)
-      unfold registered in Hr. rewrite Hgn in Hr. unfold find_inst in Hr.
-      destruct (Hok _ _ _ Hgn Hin0) as [Hw Hi0].
-      assert (Hi_in : In i (node_ifs n)) by (apply find_some in Hr; tauto).
-      destruct (Hok _ _ _ Hgn Hi_in) as [(_ & _ & Hnd) Hi].
-      (* i0 has the same name as i; both are in the node; but we only need i0's own well-formedness *)
-      split; [now rewrite Hd|].
-      (* values: i' carries set_val .. (in_vals i); typed for i's description *)
-      assert (Hfirst : i0 = i \/ True) by tauto.
-      intros q Hq. rewrite Hd in Hq. rewrite Hvals.
-      (* when several instances share the name (never the case in trees built by `at`), all of them get
-         i's values; the instance found first is i, and i0 has i's name *)
-      destruct (inst_eq_or_shadow n i i0 Hr Hin0 Hname) as [->|Hsh].
-      + apply (inst_ok_set i p v Hnd Hi Hp Hv q Hq).
-      + exfalso. exact Hsh.
+    intros [Hok Hun] Hr Hp Hv. split.
+    - intros segs' n' i' Hg Hin.
+      destruct (upd_at_child _ _ _ _ _ _ Hg) as (n & Hgn & _ & Hn).
+      destruct (Hn i' Hin) as (i0 & Hin0 & [->|[-> (Hd & Ht & [Hvals|[Hname Hvals]])]]).
+      + apply (Hok _ _ _ Hgn Hin0).
+      + destruct (Hok _ _ _ Hgn Hin0) as [Hw Hi]. split; [now rewrite Hd|].
+        intros q Hq. rewrite Hd in Hq. rewrite Hvals. apply Hi. exact Hq.
+      + (* the updated instance is i itself: names are unique in the node *)
+        unfold registered in Hr. rewrite Hgn in Hr. unfold find_inst in Hr.
+        assert (Hi_in : In i (node_ifs n)) by (apply find_some in Hr; tauto).
+        assert (i0 = i) as ->.
+        { apply (nodup_names_distinct (fun i => id_name (in_desc i)) (node_ifs n)); auto. apply (Hun _ _ Hgn). }
+        destruct (Hok _ _ _ Hgn Hi_in) as [Hw Hi]. split; [now rewrite Hd|].
+        destruct Hw as (_ & _ & Hnd).
+        intros q Hq. rewrite Hd in Hq. rewrite Hvals.
+        apply (inst_ok_set i p v Hnd Hi Hp Hv q Hq).
+    - intros segs' n' Hg. destruct (upd_at_child _ _ _ _ _ _ Hg) as (n & Hgn & Hnm & _).
+      rewrite Hnm. apply (Hun _ _ Hgn).
   Qed.
+
+  Lemma props_set_state root path iface pname sent :
+    state_ok root -> state_ok (pr_root (props_set bh root path iface pname sent)).
+  Proof.
+    intro Hs. unfold props_set. rewrite lookup_registered.
+    destruct (registered root path iface) as [i|] eqn:Hr.
+    2:{ destruct (get_child root (segs_of path)); [destruct (is_std iface)|]; exact Hs. }
+    destruct (registered_valid _ _ _ _ (proj1 Hs) Hr) as (_ & _ & _ & Hn).
+    assert (Hrun : forall p, In p (id_props (in_desc i)) ->
+              state_ok (match sr_vals (do_set bh path i p sent) with
+                        | Some vals => upd_at root (segs_of path) (iname i) vals
+                        | None => root
+                        end)).
+    { intros p Hp. destruct (sr_vals (do_set bh path i p sent)) as [vals|] eqn:E; [|exact Hs].
+      apply do_set_vals in E as (v & -> & Hv). apply state_ok_upd; auto. unfold iname. now rewrite Hn. }
+    destruct (gen_set (in_desc i) pname) as [| |p] eqn:Eg; cbn [pr_root]; try exact Hs.
+    - destruct (gen_set_mut (in_desc i) pname) as [p|] eqn:Em; cbn [pr_root]; [|exact Hs].
+      apply Hrun. unfold gen_set_mut in Em. apply find_some in Em. tauto.
+    - apply Hrun. unfold gen_set, setter_of in Eg.
+      destruct (find _ (id_props (in_desc i))) as [q|] eqn:Ef; [|discriminate].
+      destruct (pd_smut q); inversion Eg; subst. apply find_some in Ef. tauto.
+  Qed.
+
+  (* dispatch preserves the invariant: only a successful setter changes the tree *)
+  Theorem dispatch_state root c : state_ok root -> state_ok (snd (dispatch bh root c)).
+  Proof.
+    intro Hs. unfold dispatch. case_all; cbn [snd]; try exact Hs.
+    unfold std_call, of_presult. case_all; cbn [snd pr_root props_get props_get_all]; try exact Hs.
+    all: try (unfold props_get; case_all; exact Hs).
+    all: try (unfold props_get_all; case_all; exact Hs).
+    all: apply props_set_state; exact Hs.
+  Qed.
+
+  (* every state a history of calls reaches is well-formed *)
+  Fixpoint run_calls (root : node) (cs : list call) : node :=
+    match cs with [] => root | c :: r => run_calls (snd (dispatch bh root c)) r end.
+
+  Theorem history_state cs : forall root, state_ok root -> state_ok (run_calls root cs).
+  Proof. induction cs as [|c r IH]; intros root Hs; cbn; [exact Hs|]. apply IH. now apply dispatch_state. Qed.
+
+  (* ---------------------------------------------------------------- requests, uniformly *)
+  Inductive preq := QGet (iface pname : bytes) | QGetAll (iface : bytes) | QSet (iface pname : bytes) (sent : val).
+
+  Definition req_call (path : bytes) (nr : bool) (q : preq) : call :=
+    match q with
+    | QGet iface pname => props_call path nr (B "Get") [VS iface; VS pname]
+    | QGetAll iface => props_call path nr (B "GetAll") [VS iface]
+    | QSet iface pname sent => props_call path nr (B "Set") [VS iface; VS pname; VV sent]
+    end.
+  Definition req_spec (nr : bool) (root : node) (path : bytes) (q : preq) : expect :=
+    match q with
+    | QGet iface pname => spec_get bh nr root path iface pname
+    | QGetAll iface => spec_get_all bh nr root path iface
+    | QSet iface pname sent => spec_set bh nr root path iface pname sent
+    end.
+  (* the known-deviation classes of C28, on the current state *)
+  Definition req_known (root : node) (path : bytes) (q : preq) : Prop :=
+    match q with
+    | QGet iface pname =>                                   (* variant_typed_property *)
+        exists i p, registered root path iface = Some i /\ find_prop (in_desc i) pname = Some p /\
+                    readable p = true /\ tv p = true
+    | QGetAll iface =>                                      (* getall_omits_failed, variant_typed_property *)
+        exists i p v, registered root path iface = Some i /\ In p (id_props (in_desc i)) /\ readable p = true /\
+                      get_val (pd_name p) (in_vals i) = Some v /\ (tv p = true \/ getter_error bh i p v <> None)
+    | QSet iface pname sent =>                              (* variant_typed_property, changed_getter_fails *)
+        exists i p, registered root path iface = Some i /\ find_prop (in_desc i) pname = Some p /\
+                    writable p = true /\ set_known bh i p sent
+    end.
+
+  Theorem request_partial root path nr q :
+    root_ok root -> ~ req_known root path q ->
+    meets (req_spec nr root path q) (dispatch bh root (req_call path nr q)).
+  Proof.
+    intros Hok Hk. destruct q as [iface pname|iface|iface pname sent]; cbn [req_spec req_call req_known] in *.
+    - apply get_partial; [exact Hok|]. intros i p Hr Hf Hrd. destruct (tv p) eqn:E; [|reflexivity].
+      exfalso. apply Hk. eauto 8.
+    - apply get_all_partial; [exact Hok|]. intros i p v Hr Hin Hrd Hg. split.
+      + destruct (tv p) eqn:E; [|reflexivity]. exfalso. apply Hk. exists i, p, v. auto 8.
+      + destruct (getter_error bh i p v) eqn:E; [|reflexivity]. exfalso. apply Hk. exists i, p, v.
+        repeat split; auto. right. congruence.
+    - apply set_partial; [exact Hok|]. intros i p Hr Hf Hw Hs. apply Hk. eauto 8.
+  Qed.
+
+  (* over histories: after ANY sequence of calls, the next Properties request outside the classes (decided
+     on the state the history reached) is answered as the definitions say *)
+  Theorem history_partial cs root path nr q :
+    state_ok root -> ~ req_known (run_calls root cs) path q ->
+    meets (req_spec nr (run_calls root cs) path q) (dispatch bh (run_calls root cs) (req_call path nr q)).
+  Proof. intros Hs Hk. apply request_partial; [|exact Hk]. exact (proj1 (history_state cs root Hs)). Qed.
 End Inv.
